@@ -482,3 +482,97 @@ func VerifC24_readRequest() {
 		vrt.Assert(err2 == nil && req2.Host == "b" && req2.Method == "GET" && req2.RequestURI == "/2", "C24/request-second")
 	}
 }
+
+// ---------------------------------------------------------------------------------------------------
+// Request framing does not depend on the request method (RFC 7230 §3.3.3: a request body is delimited by
+// Transfer-Encoding / Content-Length only; "HEAD" changes the framing of the *response*).
+
+var methodsC24 = []string{"HEAD", "POST", "GET", "OPTIONS", "PUT", "DELETE"}
+var methodCLC24 = []string{"5", "3", "0", "x"}
+
+// VerifC24_methodFraming (layer 2): readTransfer on a request of each method with an optional
+// "Transfer-Encoding: chunked" and <= 2 Content-Length values; same oracle as VerifC24_framing.
+func VerifC24_methodFraming() {
+	method := methodsC24[vrt.Choose("method", vrt.Param("M", 4))]
+	h := Header{}
+	if vrt.Bool("chunked") {
+		h["Transfer-Encoding"] = []string{"chunked"}
+	}
+	for i, k := 0, vrt.Range("ncl", 0, 2); i < k; i++ {
+		h["Content-Length"] = append(h["Content-Length"], methodCLC24[vrt.Choose("cl", len(methodCLC24))])
+	}
+	te := append([]string{}, h["Transfer-Encoding"]...)
+	cl := append([]string{}, h["Content-Length"]...)
+	kind, n := refFramingC24(te, cl)
+
+	br := bfe_bufio.NewReader(bytes.NewReader([]byte(afterHeadC24)))
+	req := &Request{Method: method, Proto: "HTTP/1.1", ProtoMajor: 1, ProtoMinor: 1, Header: h}
+	err := readTransfer(req, br)
+	var body, rest []byte
+	var rerr error
+	if err == nil {
+		body, rerr = ioutil.ReadAll(req.Body)
+		rest, _ = ioutil.ReadAll(br)
+	}
+	checkFramingC24(kind, n, req, body, rest, err, rerr)
+}
+
+var methodLinesC24 = []string{
+	"",
+	"Content-Length: 5\r\n",
+	"Content-Length: 3\r\n",
+	"Transfer-Encoding: chunked\r\n",
+	"Content-Length: 0\r\nContent-Length: 5\r\n",
+	"Content-Length: 3\r\nTransfer-Encoding: chunked\r\n",
+	"Content-Length: 16\r\n",
+}
+
+// VerifC24_methodRequest (layer 3): the real ReadRequest twice on METHOD / HTTP/1.1 + Host + one of the
+// framing header shapes above + "5 CRLF hello CRLF 0 CRLF CRLF" + a second request. Whatever the method,
+// an accepted request has the body and the end position the reference parser gives it, so the bytes
+// after it are read as the second request and never as anything else.
+func VerifC24_methodRequest() {
+	method := methodsC24[vrt.Choose("method", vrt.Param("M", 4))]
+	lines := methodLinesC24[vrt.Choose("lines", len(methodLinesC24))]
+	start := method + " / HTTP/1.1\r\n"
+	in := []byte(start + "Host: a\r\n" + lines + "\r\n")
+	headEnd := len(in)
+	in = append(in, chunkedBodyC24...)
+	in = append(in, secondReqC24...)
+
+	fields, hdrLen, hdrOK := refHeadersC24(in[len(start):])
+	vrt.Assert(hdrOK && len(start)+hdrLen == headEnd, "C24/method-harness-sane")
+	kind, n := refFramingC24(valuesOfC24(fields, "Transfer-Encoding"), valuesOfC24(fields, "Content-Length"))
+	var wantBody string
+	wantEnd := 0
+	switch kind {
+	case frameNoneC24:
+		wantBody, wantEnd = "", headEnd
+	case frameLengthC24:
+		wantBody, wantEnd = string(in[headEnd:headEnd+int(n)]), headEnd+int(n)
+	case frameChunkedC24:
+		wantBody, wantEnd = "hello", headEnd+len(chunkedBodyC24)
+	}
+
+	src := bytes.NewReader(in)
+	br := bfe_bufio.NewReader(src)
+	req, err := ReadRequest(br, 1024)
+	if kind == frameRejectC24 {
+		vrt.Assert(err != nil, "C24/method-invalid-rejected")
+		return
+	}
+	if err != nil {
+		vrt.Cover("C24/method-valid-refused")
+		return
+	}
+	vrt.Assert(req.Method == method, "C24/method-preserved")
+	body, rerr := ioutil.ReadAll(req.Body)
+	vrt.Assert(rerr == nil, "C24/method-body-readable")
+	vrt.Assert(string(body) == wantBody, "C24/method-body")
+	end := len(in) - br.Buffered() - src.Len()
+	vrt.Assert(end == wantEnd, "C24/method-boundary")
+	if end == wantEnd && string(in[end:]) == secondReqC24 {
+		req2, err2 := ReadRequest(br, 1024)
+		vrt.Assert(err2 == nil && req2.Host == "b" && req2.Method == "GET" && req2.RequestURI == "/2", "C24/method-second")
+	}
+}
